@@ -70,9 +70,21 @@ func (x *Exec) mapGet(st *State, m *MapVal, k *Term) Value {
 	mc := x.mapContent(st, m)
 	mt := under(m.Obj.Typ).(*types.Map)
 	k = x.keyTerm(k, x.elemSort(mt.Key()))
-	return x.unflatten(st, mt.Elem(), "", func(path string, lt types.Type) *Term {
+	return ownedAs(x.unflatten(st, mt.Elem(), "", func(path string, lt types.Type) *Term {
 		return Select(mc.Leaves[path], k)
-	})
+	}), mc)
+}
+
+// ownedAs: slices read out of a map are owned memory exactly if the map's values are.
+func ownedAs(v Value, mc *MapContent) Value {
+	f := mc.ValFresh
+	if f == nil {
+		f = TTrue
+	}
+	for _, r := range sliceRegions(v) {
+		r.FreshT = f
+	}
+	return v
 }
 
 func (x *Exec) zeroElem(t types.Type) *Term {
@@ -97,7 +109,13 @@ func (x *Exec) mapUpdate(st *State, fr *Frame, v *ssa.MapUpdate) {
 	k := x.keyTerm(x.val(st, fr, v.Key), x.elemSort(mt.Key()))
 	leaves := map[string]*Term{}
 	x.flatten(st, x.val(st, fr, v.Value), mt.Elem(), "", leaves)
-	nm := &MapContent{Dom: Store(mc.Dom, k, TTrue), Leaves: map[string]*Term{}, Nil: mc.Nil}
+	nm := &MapContent{Dom: Store(mc.Dom, k, TTrue), Leaves: map[string]*Term{}, Nil: mc.Nil, ValFresh: mc.ValFresh}
+	for _, reg := range sliceRegions(x.val(st, fr, v.Value)) {
+		if nm.ValFresh == nil {
+			nm.ValFresh = TTrue
+		}
+		nm.ValFresh = And(nm.ValFresh, objFresh(reg))
+	}
 	for p, arr := range mc.Leaves {
 		nm.Leaves[p] = Store(arr, k, leaves[p])
 	}
@@ -114,9 +132,9 @@ func (x *Exec) lookup(st *State, fr *Frame, v *ssa.Lookup) Value {
 		mt := under(b.Obj.Typ).(*types.Map)
 		k := x.keyTerm(x.val(st, fr, v.Index), x.elemSort(mt.Key()))
 		in := And(Not(mc.Nil), Select(mc.Dom, k))
-		val := x.unflatten(st, mt.Elem(), "", func(path string, lt types.Type) *Term {
+		val := ownedAs(x.unflatten(st, mt.Elem(), "", func(path string, lt types.Type) *Term {
 			return Ite(in, Select(mc.Leaves[path], k), x.zeroElem(lt))
-		})
+		}), mc)
 		if v.CommaOk {
 			return &TupleVal{Vs: []Value{val, in}}
 		}
@@ -158,9 +176,9 @@ func (x *Exec) rangeNext(st *State, fr *Frame, v *ssa.Next) Value {
 		mt := under(it.Map.Typ).(*types.Map)
 		ok := Lt(i, mc.Card)
 		k := Select(it.Ord, i)
-		val := x.unflatten(st, mt.Elem(), "", func(path string, lt types.Type) *Term {
+		val := ownedAs(x.unflatten(st, mt.Elem(), "", func(path string, lt types.Type) *Term {
 			return Select(mc.Leaves[path], k)
-		})
+		}), mc)
 		st.Heap[it.Pos] = Add(i, IntLit(1))
 		return &TupleVal{Vs: []Value{ok, x.fromElem(st, k, mt.Key()), val}}
 	}
@@ -226,4 +244,19 @@ func (x *Exec) mapEq(a, b *MapContent) *Term {
 	da := And(Not(a.Nil), Select(a.Dom, k))
 	db := And(Not(b.Nil), Select(b.Dom, k))
 	return And(Eq(a.Card, b.Card), Forall([]*Term{k}, And(Eq(da, db), Implies(da, And(eqs...)))))
+}
+
+// sliceRegions: the backing regions of all slices inside a value (struct fields included).
+func sliceRegions(v Value) []*Obj {
+	switch s := v.(type) {
+	case *SliceVal:
+		return []*Obj{s.Reg}
+	case *StructVal:
+		var out []*Obj
+		for _, f := range s.Fields {
+			out = append(out, sliceRegions(f)...)
+		}
+		return out
+	}
+	return nil
 }
